@@ -944,6 +944,8 @@ type c06Eff struct {
 	src  c05Lin
 	srow c05Lin // copyCell: the source row
 	pos  token.Pos
+	// copySpan (copy(X[r][a:hi], X[r'][b:shi]), memmove of cells): col = a, src = b, and the two high bounds
+	hi, shi c05Lin
 }
 
 type c06Out struct {
@@ -1117,6 +1119,11 @@ func (x *c06X) execStmt(fr *c05Frame, s ast.Stmt, st *c05State, effs []c06Eff) [
 				if okd && oks && e.isGrid(fr.info.TypeOf(d.X)) && e.isGrid(fr.info.TypeOf(sx.X)) && e.pathKey(fr, d.X) == e.pathKey(fr, sx.X) && e.pathKey(fr, d.X) == c05Active {
 					return one(0, st, append(effs, c06Eff{kind: "copy", row: e.linOf(fr, st, d.Index), src: e.linOf(fr, st, sx.Index), pos: call.Pos()}))
 				}
+				if x.cellOps {
+					if eff, ok := x.copySpanEffect(fr, call, st); ok {
+						return one(0, st, append(effs, eff))
+					}
+				}
 				x.undecided("copy at %s is not a row-to-row copy of the active screen", x.c.P.Pos(call.Pos()))
 				return nil
 			}
@@ -1127,6 +1134,9 @@ func (x *c06X) execStmt(fr *c05Frame, s ast.Stmt, st *c05State, effs []c06Eff) [
 					if x.cellErase {
 						if sel, ok := unparen(call.Fun).(*ast.SelectorExpr); ok {
 							if cix, ok := unparen(sel.X).(*ast.IndexExpr); ok {
+								if e.isRow(fr.info.TypeOf(cix.X)) {
+									cix = c06RowAlias(e, fr, cix) // line := X[r]; line[c].erase(...)
+								}
 								if rix, ok := unparen(cix.X).(*ast.IndexExpr); ok && e.pathKey(fr, rix.X) == c05Active {
 									return one(0, st, append(effs, c06Eff{kind: "erase", row: e.linOf(fr, st, rix.Index), col: e.linOf(fr, st, cix.Index), pos: call.Pos()}))
 								}
@@ -1361,6 +1371,23 @@ func c06RowAlias(e *c05Eng, fr *c05Frame, t *ast.IndexExpr) *ast.IndexExpr {
 	if rix, ok := unparen(def).(*ast.IndexExpr); ok && e.isGrid(fr.info.TypeOf(rix.X)) {
 		return &ast.IndexExpr{X: rix, Lbrack: t.Lbrack, Index: t.Index, Rbrack: t.Rbrack}
 	}
+	// a window of a row bound once (tail := X[r][a:] / tail := line[a:b]): tail[c] is X[r][a+c]
+	// (that c stays inside the window is C05.g's business)
+	if sx, ok := unparen(def).(*ast.SliceExpr); ok && sx.Max == nil && e.isRow(fr.info.TypeOf(sx.X)) {
+		idx := t.Index
+		if sx.Low != nil {
+			idx = &ast.BinaryExpr{X: sx.Low, OpPos: t.Lbrack, Op: token.ADD, Y: t.Index}
+		}
+		inner := &ast.IndexExpr{X: sx.X, Lbrack: t.Lbrack, Index: idx, Rbrack: t.Rbrack}
+		if rix, ok := unparen(sx.X).(*ast.IndexExpr); ok && e.isGrid(fr.info.TypeOf(rix.X)) {
+			return inner
+		}
+		if _, ok := unparen(sx.X).(*ast.Ident); ok {
+			if r := c06RowAlias(e, fr, inner); r != inner {
+				return r
+			}
+		}
+	}
 	return t
 }
 
@@ -1453,7 +1480,7 @@ func c06AliasDef(fr *c05Frame, id *ast.Ident) ast.Expr {
 	// nothing the right-hand side reads changes while the alias is in scope
 	assigned := c06AssignedIn(info, defBlock)
 	for o := range objsIn(info, rhs) {
-		if assigned[o] {
+		if assigned[o] && c06PathConflict(info, defBlock, rhs, o) {
 			return nil
 		}
 	}
@@ -1471,6 +1498,85 @@ func c06AliasDef(fr *c05Frame, id *ast.Ident) ast.Expr {
 		return nil
 	}
 	return rhs
+}
+
+// c06FieldPath: for a pure field path o.f.g (parentheses and dereferences ignored) the path ".f.g" ("" for o itself).
+func c06FieldPath(info *types.Info, x ast.Expr, o types.Object) (string, bool) {
+	switch t := unparen(x).(type) {
+	case *ast.Ident:
+		return "", info.ObjectOf(t) == o
+	case *ast.StarExpr:
+		return c06FieldPath(info, t.X, o)
+	case *ast.SelectorExpr:
+		if sel, ok := info.Selections[t]; ok && sel.Kind() == types.FieldVal {
+			if b, ok := c06FieldPath(info, t.X, o); ok {
+				return b + "." + t.Sel.Name, true
+			}
+		}
+	}
+	return "", false
+}
+
+// c06PathConflict: the block assigns a field path of o that the expression rhs reads (or a prefix / an extension of
+// one): `vt.lastCol = false` does not disturb an alias of vt.activeScreen[vt.cursor.row], `vt.cursor.row++` does.
+// Stores the object-level test (c06AssignedIn) counts but that are no pure field paths are conflicts.
+func c06PathConflict(info *types.Info, block ast.Node, rhs ast.Expr, o types.Object) bool {
+	var reads []string
+	var walk func(n ast.Node)
+	walk = func(n ast.Node) {
+		ast.Inspect(n, func(m ast.Node) bool {
+			x, ok := m.(ast.Expr)
+			if !ok {
+				return true
+			}
+			if p, ok := c06FieldPath(info, x, o); ok {
+				reads = append(reads, p)
+				return false
+			}
+			return true
+		})
+	}
+	walk(rhs)
+	conflict := false
+	overlaps := func(p string) bool {
+		for _, q := range reads {
+			if p == q || strings.HasPrefix(q, p+".") || strings.HasPrefix(p, q+".") || p == "" || q == "" {
+				return true
+			}
+		}
+		return false
+	}
+	store := func(l ast.Expr) {
+		if rootObj(info, l) != o {
+			return
+		}
+		hasIdx := false
+		ast.Inspect(l, func(k ast.Node) bool {
+			if _, ok := k.(*ast.IndexExpr); ok {
+				hasIdx = true
+			}
+			return true
+		})
+		if hasIdx {
+			return // as in c06AssignedIn: a store through an index changes no variable
+		}
+		p, ok := c06FieldPath(info, l, o)
+		if !ok || overlaps(p) {
+			conflict = true
+		}
+	}
+	ast.Inspect(block, func(m ast.Node) bool {
+		switch t := m.(type) {
+		case *ast.AssignStmt:
+			for _, l := range t.Lhs {
+				store(l)
+			}
+		case *ast.IncDecStmt:
+			store(t.X)
+		}
+		return !conflict
+	})
+	return conflict
 }
 
 // blankEffect recognises  X[r][c].Character.Grapheme = " "  (blankG),  X[r][c].Style = <pen style>  (blankS)
@@ -1699,8 +1805,51 @@ func (x *c06X) enter(fr *c05Frame, lp *c06Loop, st *c05State) *c05State {
 		e.bindRange(fr, st, lp.rng)
 		return st
 	}
+	// the loop variable stays on its side of the initial value: besides the bounds relative to single symbols that
+	// generic() keeps, the relation to a compound initial value (i := len(line) - n) is kept as a fact, when nothing
+	// that value reads is assigned in the body
+	var initFact *c05Lin
+	if as, ok := lp.init.(*ast.AssignStmt); ok && len(as.Rhs) == 1 && lp.body != nil {
+		stable := true
+		assigned := c06AssignedIn(fr.info, lp.body)
+		for o := range objsIn(fr.info, as.Rhs[0]) {
+			if assigned[o] || o == lp.obj {
+				stable = false
+			}
+		}
+		ast.Inspect(as.Rhs[0], func(n ast.Node) bool {
+			if call, ok := n.(*ast.CallExpr); ok {
+				if tv, ok := fr.info.Types[call.Fun]; !ok || !tv.IsType() {
+					if !c05IsBuiltin(fr.info, call, "len") {
+						stable = false
+					}
+				}
+			}
+			return stable
+		})
+		if stable {
+			tmp := st.clone()
+			l := e.canon(tmp, e.linOf(fr, tmp, as.Rhs[0]))
+			usable := len(l.t) >= 2 && !l.mentions(lp.key)
+			for a := range l.t {
+				if c05IsTmp(a) {
+					usable = false
+				}
+			}
+			if usable {
+				f := l.addScaled(c05Atom(lp.key), -1) // init - v <= 0 (ascending)
+				if !lp.asc {
+					f = f.neg()
+				}
+				initFact = &f
+			}
+		}
+	}
 	e.transfer(fr, st, lp.init)
 	x.generic(st, lp)
+	if initFact != nil {
+		st.facts = c05AddFact(st.facts, *initFact)
+	}
 	return e.assume(fr, st, lp.cond, true)
 }
 
